@@ -486,6 +486,48 @@ def run(loader, R, tier):
                                  " / ".join(wants)))
     R.floor("C container wrappers", nw, 13)
 
+    # --------------------------------------------------------------- R42.11
+    # objects the C API creates are completely initialised: `new T` of a
+    # struct with an implicit default constructor leaves scalar members
+    # (enums, integers, pointers) indeterminate unless they have a default
+    # member initialiser or the object is value-initialised (`new T()`)
+    R.rule("R42.11", "every object a *_new() function creates has all its "
+                     "scalar members initialised")
+    SCALAR = ("int", "unsigned int", "long", "unsigned long", "double",
+              "float", "bool", "char", "size_t", "short")
+    nnew = 0
+    for f in sorted(ec, key=lambda f: f["n"]):
+        for n in walk(f["body"]):
+            if n.get("k") != "new" or not n.get("a"):
+                continue
+            c = n["a"][0]
+            if c.get("k") != "ctor" or c.get("a"):
+                continue
+            T = strip_type(n.get("t") or "")
+            cls = prog.classes.get(T)
+            if not cls:
+                continue
+            nnew += 1
+            bad = [fd["n"] for fd in cls.get("fields", ())
+                   if fd.get("i") is None and (
+                       strip_type(fd["t"]) in SCALAR
+                       or strip_type(fd["t"]) in prog.enums
+                       or fd["t"].rstrip().endswith("*"))]
+            R.instance("R42.11", "%s:%s" % (f["n"], short(T)), sample={
+                "function": f["n"], "type": short(T),
+                "implicit_ctor": bool(c.get("implicit")),
+                "zero_initialised": bool(c.get("zi")),
+                "scalar_members_without_initialiser": bad})
+            if bad and c.get("implicit") and not c.get("zi"):
+                R.violation(
+                    "R42.11", "%s:%s" % (f["n"], short(T)),
+                    prog.loc(f, n.get("l")),
+                    "%s creates a %s with `new %s`: the member(s) %s have "
+                    "no initialiser, so an object that is used before the "
+                    "matching setter was called holds an indeterminate "
+                    "value" % (f["n"], short(T), short(T), bad))
+    R.floor("objects created by the C API", nnew, 5)
+
     # --------------------------------------------------------------- R42.10
     # nullary C constructors (basic_const_<X>, basic_set_<X>) hand out the
     # core object of the same name, and no two of them hand out the same one
